@@ -431,8 +431,11 @@ private:
                            , std::ptrdiff_t y
                            )
     {
-        if(  y >= this->_settings._top_left.y
-          && y <  this->_settings._dim.y
+        // y is a row of the image, buf holds that whole row: rows [top_left.y, top_left.y + dim.y) belong to the region
+        std::ptrdiff_t const row = y - this->_settings._top_left.y;
+
+        if(  row >= 0
+          && row <  this->_settings._dim.y
           )
         {
             typename Buffer::const_iterator beg = buf.begin() + this->_settings._top_left.x;
@@ -440,7 +443,7 @@ private:
 
             std::copy( beg
                      , end
-                     , view.row_begin( y )
+                     , view.row_begin( row )
                      );
         }
     }
@@ -461,7 +464,8 @@ private:
         std::size_t stream_pos = this->_info._offset;
 
         using Buf_type = std::vector<rgba8_pixel_t>;
-        Buf_type buf( this->_settings._dim.x );
+        // every row of the image is decoded at its full width, the requested region is copied out of it
+        Buf_type buf( this->_info._width );
         Buf_type::iterator dst_it  = buf.begin();
         Buf_type::iterator dst_end = buf.end();
 
@@ -473,11 +477,11 @@ private:
         // but in this case the bottom left corner is the first pixel of the last row of bitmap data.
         // - "Programming Windows", 5th Ed. by Charles Petzold explains Windows docs ambiguities.
         std::ptrdiff_t ybeg = 0;
-        std::ptrdiff_t yend = this->_settings._dim.y;
+        std::ptrdiff_t yend = this->_info._height;
         std::ptrdiff_t yinc = 1;
         if( this->_info._height > 0 )
         {
-            ybeg = this->_settings._dim.y - 1;
+            ybeg = this->_info._height - 1;
             yend = -1;
             yinc = -1;
         }
